@@ -816,3 +816,89 @@ Example render_total_fixed_example :
   render no_floats cfg_fixed rec_schema 3 1 rec_value
   = Ok [40; 110; 101; 120; 116; 32; 61; 32; 40; 110; 101; 120; 116; 32; 61; 32; 40; 41; 41; 41].   (* (next = (next = ())) *)
 Proof. vm_compute. reflexivity. Qed.
+
+(* ---- totality, proved part.  For structs whose fields are all of primitive, text, data, enum,
+   interface or AnyPointer type (no struct / list / group fields) the walk returns (a value or an
+   error) with fuel 1, for EVERY stored value, cache state and expansion stack: discriminants
+   of no member, enum ordinals without an enumerant, offsets outside the sections and pointers
+   of the wrong kind never make it diverge.
+   MISSING for the full statement (hence _partial): the fuel bound for nested values,
+     fuel >= (depth v + 1 + N * (DD + 1)) * (G + 1)
+   (N struct types, DD depth of the deepest default value, G longest chain of nested groups,
+   groups acyclic) for the fixed walk; its pre-fix failure is [render_total_refuted]; the Go
+   side of it is exercised by the hostile / recursive-type correspondence runs. *)
+Definition no_oof {A} (m : M A) : Prop := forall st, m st <> OutOfFuel.
+
+Lemma bind_no_oof : forall {A B} (m : M A) (k : A -> M B),
+  no_oof m -> (forall a, no_oof (k a)) -> no_oof (bind m k).
+Proof.
+  intros A B m k Hm Hk st. unfold bind. specialize (Hm st).
+  destruct (m st) as [[a st']|e|]; [apply Hk|discriminate|congruence].
+Qed.
+Lemma ret_no_oof : forall {A} (a : A), no_oof (ret a).
+Proof. intros A a st. discriminate. Qed.
+Lemma fail_no_oof : forall {A} e, no_oof (@fail A e).
+Proof. intros A e st. discriminate. Qed.
+Lemma charge_no_oof : forall k, no_oof (charge k).
+Proof. intros k [b|]; unfold charge; [destruct (k <=? b)|]; discriminate. Qed.
+Lemma find_no_oof : forall c sc, no_oof (find c sc).
+Proof. intros c sc [b|]; unfold find; [|destruct (s_load sc <=? c_limit0 c)]; discriminate. Qed.
+
+Lemma shown_enum_no_oof : forall c sc id v, no_oof (shown_enum c sc id v).
+Proof.
+  intros c sc id v. unfold shown_enum. apply bind_no_oof; [apply find_no_oof|intros _].
+  destruct (lookup (s_nodes sc) id) as [[| ecost names |]|]; try apply fail_no_oof.
+  apply bind_no_oof; [apply charge_no_oof|intros _].
+  destruct (Z.of_nat (length names) <=? v); [apply ret_no_oof|].
+  destruct (nth_error names (Z.to_nat v)) as [[name nc]|]; [|apply fail_no_oof].
+  apply bind_no_oof; [apply charge_no_oof|intros _; apply ret_no_oof].
+Qed.
+
+Lemma collect_fields_no_oof : forall (step : field -> M (option tval)) fields,
+  (forall fd, In fd fields -> no_oof (step fd)) -> no_oof (collect_fields step fields).
+Proof.
+  intros step. induction fields as [|fd r IH]; intros H; simpl.
+  - apply ret_no_oof.
+  - apply bind_no_oof; [apply H; now left|intros o].
+    apply bind_no_oof; [apply IH; intros; apply H; now right|intros; apply ret_no_oof].
+Qed.
+
+Definition flat_ty (t : ty) : Prop := match t with TStruct _ | TList _ _ => False | _ => True end.
+Definition flat_field (fd : field) : Prop :=
+  match f_kind fd with FSlot _ t _ _ _ _ _ => flat_ty t | FGroup _ => False | FOther => True end.
+Definition flat_schema (sc : schema) : Prop :=
+  Forall (fun p => match snd p with NStruct _ _ _ fields => Forall flat_field fields | _ => True end) (s_nodes sc).
+
+Lemma lookup_flat : forall ns id dc doff fc fields,
+  Forall (fun p => match snd p with NStruct _ _ _ fields => Forall flat_field fields | _ => True end) ns ->
+  lookup ns id = Some (NStruct dc doff fc fields) -> Forall flat_field fields.
+Proof.
+  induction ns as [|[k m] ns IH]; intros id dc doff fc fields H E; simpl in E; [discriminate|].
+  inversion H; subst. destruct (k =? id); [inversion E; subst; assumption|]. eapply IH; eassumption.
+Qed.
+
+Theorem render_total_flat_partial : forall ffmt c sc fuel exp id d ps,
+  flat_schema sc -> no_oof (shown_struct ffmt c sc (S fuel) exp id d ps).
+Proof.
+  intros ffmt c sc fuel exp id d ps Hflat.
+  with_strategy opaque [find bind charge lookup collect_fields collect_elems ret fail lift shown_enum
+                        get_le get_bit ptr_at is_null as_struct data_bytes text_bytes sint Z.lxor
+                        Z.eqb Z.ltb Z.leb existsb c_cut andb] simpl.
+  apply bind_no_oof; [apply find_no_oof|intros _].
+  destruct (lookup (s_nodes sc) id) as [[dc doff fc fields| |]|] eqn:El; try apply fail_no_oof.
+  pose proof (lookup_flat _ _ _ _ _ _ Hflat El) as Hf.
+  apply bind_no_oof; [apply charge_no_oof|intros _].
+  apply bind_no_oof; [|intros; apply ret_no_oof].
+  apply collect_fields_no_oof. intros fd Hin. rewrite Forall_forall in Hf. specialize (Hf fd Hin).
+  unfold flat_field in Hf.
+  destruct (f_kind fd) as [off t dflt dptr tcost dvcost dpcost|gid|]; [|contradiction|apply ret_no_oof].
+  destruct (negb _); [apply ret_no_oof|].
+  apply bind_no_oof; [apply charge_no_oof|intros _].
+  apply bind_no_oof; [apply charge_no_oof|intros _].
+  apply bind_no_oof; [apply charge_no_oof|intros _].
+  apply bind_no_oof; [|intros; apply ret_no_oof].
+  destruct t; simpl in Hf; try contradiction; try apply ret_no_oof.
+  - destruct (is_null _); [apply bind_no_oof; [apply charge_no_oof|intros _]|]; apply ret_no_oof.
+  - destruct (is_null _); [apply bind_no_oof; [apply charge_no_oof|intros _]|]; apply ret_no_oof.
+  - apply shown_enum_no_oof.
+Qed.
